@@ -20,6 +20,7 @@ import (
 	"fmt"
 	"io"
 	"net"
+	"sync"
 	"time"
 
 	apicommon "github.com/enfein/mieru/v3/apis/common"
@@ -38,6 +39,10 @@ const (
 	packetNonHeaderPosition = cipher.DefaultNonceSize + MetadataLength + cipher.DefaultOverhead
 
 	idleSessionTimeout = time.Minute
+
+	// closedSessionRetention is how long a server remembers the ID of a removed session.
+	// It is longer than the time a delayed segment stays acceptable.
+	closedSessionRetention = 3 * time.Minute
 )
 
 // packetReplayCache is the same cache as streamReplayCache. Both transports use
@@ -59,6 +64,10 @@ type PacketUnderlay struct {
 
 	// ---- server fields ----
 	serverUsers *serveruser.Registry
+
+	// closedSessions maps the ID of a removed session to the time of removal.
+	// A delayed copy of its open session request must not open it again.
+	closedSessions sync.Map
 }
 
 var _ Underlay = &PacketUnderlay{}
@@ -331,6 +340,10 @@ func (u *PacketUnderlay) onOpenSessionRequest(seg *segment, remoteAddr net.Addr)
 	_, found := u.sessionMap.Load(sessionID)
 	if found {
 		log.Debugf("%v received openSessionRequest, but session ID %d is already used", u, sessionID)
+		return nil
+	}
+	if _, closed := u.closedSessions.Load(sessionID); closed {
+		log.Debugf("%v received openSessionRequest, but session ID %d was closed recently", u, sessionID)
 		return nil
 	}
 	session := newSessionWithServerUserPolicy(sessionID, false, u.MTU(), seg.serverUserPolicy, nil, u.trafficPattern)
@@ -881,11 +894,20 @@ func (u *PacketUnderlay) tryDecryptExistingSession(encryptedMeta []byte, addr ne
 }
 
 func (u *PacketUnderlay) cleanSessions() {
+	u.closedSessions.Range(func(k, v any) bool {
+		if time.Since(v.(time.Time)) > closedSessionRetention {
+			u.closedSessions.Delete(k)
+		}
+		return true
+	})
 	u.sessionMap.Range(func(k, v any) bool {
 		session := v.(*Session)
 		select {
 		case <-session.closedChan:
 			log.Debugf("Found closed %v", session)
+			if !u.isClient {
+				u.closedSessions.Store(session.id, time.Now())
+			}
 			if err := u.RemoveSession(session); err != nil {
 				log.Debugf("%v RemoveSession() failed: %v", u, err)
 			}
@@ -898,6 +920,9 @@ func (u *PacketUnderlay) cleanSessions() {
 		}
 		if time.Now().UnixMicro()-session.lastRXTime.Load() > idleSessionTimeout.Microseconds() {
 			log.Debugf("Found idle %v", session)
+			if !u.isClient {
+				u.closedSessions.Store(session.id, time.Now())
+			}
 			if err := u.RemoveSession(session); err != nil {
 				log.Debugf("%v RemoveSession() failed: %v", u, err)
 			}
